@@ -75,27 +75,29 @@ func minMaxDist(p geom.Point, r *geom.Bounds) float64 {
 	// min{1<=k<=n}(|pk - rmk|^2 + sum{1<=i<=n, i != k}(|pi - rMi|^2))
 	// where rmk and rMk are defined as follows:
 
+	// (The midpoints are formed from the halves: the sum of two coordinates
+	// above 9e307 overflows.)
 	rmX := func() float64 {
-		if p.X <= (r.Min.X+r.Max.X)/2 {
+		if p.X <= r.Min.X/2+r.Max.X/2 {
 			return r.Min.X
 		}
 		return r.Max.X
 	}
 	rmY := func() float64 {
-		if p.Y <= (r.Min.Y+r.Max.Y)/2 {
+		if p.Y <= r.Min.Y/2+r.Max.Y/2 {
 			return r.Min.Y
 		}
 		return r.Max.Y
 	}
 
 	rMX := func() float64 {
-		if p.X >= (r.Min.X+r.Max.X)/2 {
+		if p.X >= r.Min.X/2+r.Max.X/2 {
 			return r.Min.X
 		}
 		return r.Max.X
 	}
 	rMY := func() float64 {
-		if p.Y >= (r.Min.Y+r.Max.Y)/2 {
+		if p.Y >= r.Min.Y/2+r.Max.Y/2 {
 			return r.Min.Y
 		}
 		return r.Max.Y
